@@ -165,6 +165,9 @@ CLAIMED = {
                 "failing command with the error it gave the first time. "
                 "About a fifth of the histories are driven through the real "
                 "REPL loop (ckl.repl.main with simulated input/print) "
+                "or through one real ckl.run.main() call per command (the "
+                "command-line host, with one stub: the same interpreter is "
+                "handed back on every call) "
                 "instead of direct interpret calls; caller-supplied "
                 "environments move between the two instances; commands are "
                 "re-issued verbatim later and strings are modified in place. "
